@@ -147,6 +147,10 @@ func (p *Parser) parseString(data string) error {
 	if inBackticks {
 		return errors.New("backticks left open")
 	}
+	if linebuffer.Len() > 0 {
+		// the last line ended with a continuation backslash: the pending directive was never evaluated
+		return errors.New("line continuation at the end of the configuration")
+	}
 	return nil
 }
 
